@@ -1,31 +1,56 @@
 import Driver.Util
 import ClairModel.Model.Manager
+import ClairModel.Model.ManagerSetup
+import ClairModel.Model.ManagerStart
 
 /-
-  Line-protocol driver of the update-manager machine (property C13).
+  Line-protocol driver of the update-manager model (property C13).
 
   Declarations (answer `ok`):
     reset
     hist <v|e> <name> <fp>                      prior update operation (oldest first)
-    upd <i> <name> <p|d|e> <cfg> <getok> <fmode> <src> <parseok> <vulns> <deleted> <storeok> <ctxaware>
-    fac <f> <ok> <members>
-    run <r> <batch> <gc> <factories>
-  Events (answer = what the machine says the code does):
+    upd <i> <name> <p|d|e|x> <cfg> <getok> <fmode> <src> <parseok> <vulns> <deleted> <storeok> <ctxaware> <cmode>
+    fac <f> <ok> <members> <fcfg>               an UpdaterSetFactory handed in from outside
+    facset <f> <uset> <fcfg>                    ... that is StaticSet(<uset>) as the set is now
+    regdecl <name> <f>                          a factory already in the process-wide registry
+    startdecl <s> <mgr>                         a Manager.Start call
+    run <r> <mgr> [<s>]                         a Manager.Run call (made by Start call s)
+  Set-up operations (answer = what the model says the code does):
+    uset <id> add <i> | merge <id2> | filter <pat> | list
+    register <name> <f>          registered
+    newmgr <m> <clientok> <defbatch> <definterval> <opt>...
+        opt = b:<n> i:<n> en:*|-|<csv> cf:-|<u|f><name>=<id>,... oot:-|<csv> gc:<int> fs:-|<name>=<f>,...
+  Events:
     begin|acquire|launch|wait|drained|ret|cancel|gctry|gc|gcdone <r>
-    try|getops|fetch|parse|store|status|done <r> <i>
+    try|getops|fetch|parse|store|close|status|done <r> <i>
+    sbegin|tick|sret|scancel <s>
 -/
 namespace Driver.C13
-open ClairModel.Manager
+open ClairModel.Manager ClairModel.MgrSetup ClairModel.MgrStart
+
+structure RunInfo where
+  batch : Nat
+  gc : Bool
+  keep : Int
+  toRun : List Nat
+  stubSets : Nat
+  facCalls : List Nat
+  cfgCalls : List (Nat × Nat)
 
 structure DState where
   scripts : List (Nat × Script) := []
-  facs : List (Nat × Fac) := []
-  runs : List (Nat × Nat × Bool × List Nat) := []
-  st : State := init []
+  facs : List (Nat × Fac × Nat) := []
+  usets : List (Nat × USet) := []
+  reg : List (Nat × Nat) := []
+  mgrs : List (Nat × Mgr) := []
+  runs : List (Nat × RunInfo) := []
+  owner : List (Nat × Nat) := []
+  starts : List (Nat × Nat) := []
+  st : SState := sinit []
 
 def defaultScript : Script :=
   { name := 0, kind := .plain, cfg := 0, getOk := true, fmode := 0, src := 0, parseOk := true,
-    vulns := [], deleted := [], storeOk := true, ctxAware := false }
+    vulns := [], deleted := [], storeOk := true, ctxAware := false, cmode := 0 }
 
 /-- The program-counter slot of the GC section; its "updater" only carries
     the lock key `garbage-collection` (name 1). -/
@@ -37,26 +62,51 @@ def script (d : DState) (i : Nat) : Script :=
   | some s => s
   | none => defaultScript
 
-def fac (d : DState) (f : Nat) : Fac :=
-  match d.facs.lookup f with
-  | some x => x
-  | none => ⟨false, []⟩
+def world (d : DState) : World :=
+  { name := fun i => (script d i).name,
+    ucfg := fun i => (script d i).cfg,
+    fac := fun f => match d.facs.lookup f with
+      | some x => x.1
+      | none => ⟨false, []⟩,
+    fcfg := fun f => match d.facs.lookup f with
+      | some x => x.2
+      | none => 0 }
+
+def insertSorted (x : Nat) : List Nat → List Nat
+  | [] => [x]
+  | y :: ys => if x ≤ y then x :: y :: ys else y :: insertSorted x ys
+
+def sortNat (l : List Nat) : List Nat := l.foldr insertSorted []
+
+def insertPair (x : Nat × Nat) : List (Nat × Nat) → List (Nat × Nat)
+  | [] => [x]
+  | y :: ys => if x.1 < y.1 ∨ (x.1 = y.1 ∧ x.2 ≤ y.2) then x :: y :: ys else y :: insertPair x ys
+
+def sortPairs (l : List (Nat × Nat)) : List (Nat × Nat) := l.foldr insertPair []
+
+def runInfo (d : DState) (m : Mgr) : RunInfo :=
+  let w := world d
+  { batch := m.batch, gc := m.retention != 0, keep := m.retention,
+    toRun := m.toRun w, stubSets := m.stubSets w,
+    facCalls := sortNat (m.facs.map (·.1)), cfgCalls := sortPairs (m.cfgCalls w) }
+
+def noRun : RunInfo :=
+  { batch := 0, gc := false, keep := 0, toRun := [], stubSets := 0, facCalls := [], cfgCalls := [] }
 
 def mkEnv (d : DState) : Env :=
-  let name := fun i => (script d i).name
-  let facsOf := fun r => match d.runs.lookup r with
-    | some (_, _, fs) => fs.map (fac d)
-    | none => []
+  let info := fun r => (d.runs.lookup r).getD noRun
   { upd := fun i => (script d i).toUpd,
-    batch := fun r => match d.runs.lookup r with
-      | some (b, _, _) => b
-      | none => 0,
-    gc := fun r => match d.runs.lookup r with
-      | some (_, g, _) => g
-      | none => false,
+    batch := fun r => (info r).batch,
+    gc := fun r => (info r).gc,
+    keep := fun r => (info r).keep,
     gcInst := gcInst,
-    toRun := fun r => plan name (fun i => (script d i).cfg != 2) (facsOf r),
-    stubSets := fun r => planStubs name (facsOf r) }
+    toRun := fun r => (info r).toRun,
+    stubSets := fun r => (info r).stubSets,
+    facCalls := fun r => (info r).facCalls,
+    cfgCalls := fun r => (info r).cfgCalls }
+
+def mkSEnv (d : DState) : SEnv :=
+  { env := mkEnv d, owner := fun r => d.owner.lookup r, interval := fun s => (d.starts.lookup s).getD 0 }
 
 def csv (s : String) : Option (List Nat) :=
   if s == "-" then some [] else (s.splitOn ",").mapM (·.toNat?)
@@ -65,37 +115,42 @@ def bool? (s : String) : Option Bool :=
   if s == "1" then some true else if s == "0" then some false else none
 
 def kind? (s : String) : Option Kind :=
-  if s == "p" then some .plain else if s == "d" then some .delta else if s == "e" then some .enrich else none
+  if s == "p" then some .plain else if s == "d" then some .delta
+  else if s == "e" then some .enrich
+  else if s == "x" then some .enrich     -- an object that is an EnrichmentUpdater and a DeltaUpdater: the former wins
+  else none
 
-def parseEv (ws : List String) : Option Ev :=
+def parseEv (ws : List String) : Option SEv :=
   match ws with
-  | ["begin", r] => do pure (.begin (← r.toNat?))
-  | ["acquire", r] => do pure (.acquire (← r.toNat?))
-  | ["launch", r] => do pure (.launch (← r.toNat?))
-  | ["wait", r] => do pure (.wait (← r.toNat?))
-  | ["drained", r] => do pure (.drained (← r.toNat?))
-  | ["ret", r] => do pure (.ret (← r.toNat?))
-  | ["cancel", r] => do pure (.cancel (← r.toNat?))
-  | ["try", r, i] => do pure (.tryLock (← r.toNat?) (← i.toNat?))
-  | ["getops", r, i] => do pure (.getOps (← r.toNat?) (← i.toNat?))
-  | ["fetch", r, i] => do pure (.fetch (← r.toNat?) (← i.toNat?))
-  | ["parse", r, i] => do pure (.parse (← r.toNat?) (← i.toNat?))
-  | ["store", r, i] => do pure (.store (← r.toNat?) (← i.toNat?))
-  | ["status", r, i] => do pure (.status (← r.toNat?) (← i.toNat?))
-  | ["done", r, i] => do pure (.done (← r.toNat?) (← i.toNat?))
-  | ["gctry", r] => do pure (.gcTry (← r.toNat?))
-  | ["gc", r] => do pure (.gc (← r.toNat?))
-  | ["gcdone", r] => do pure (.gcDone (← r.toNat?))
+  | ["begin", r] => do pure (.inner (.begin (← r.toNat?)))
+  | ["acquire", r] => do pure (.inner (.acquire (← r.toNat?)))
+  | ["launch", r] => do pure (.inner (.launch (← r.toNat?)))
+  | ["wait", r] => do pure (.inner (.wait (← r.toNat?)))
+  | ["drained", r] => do pure (.inner (.drained (← r.toNat?)))
+  | ["ret", r] => do pure (.inner (.ret (← r.toNat?)))
+  | ["cancel", r] => do pure (.inner (.cancel (← r.toNat?)))
+  | ["try", r, i] => do pure (.inner (.tryLock (← r.toNat?) (← i.toNat?)))
+  | ["getops", r, i] => do pure (.inner (.getOps (← r.toNat?) (← i.toNat?)))
+  | ["fetch", r, i] => do pure (.inner (.fetch (← r.toNat?) (← i.toNat?)))
+  | ["parse", r, i] => do pure (.inner (.parse (← r.toNat?) (← i.toNat?)))
+  | ["store", r, i] => do pure (.inner (.store (← r.toNat?) (← i.toNat?)))
+  | ["close", r, i] => do pure (.inner (.close (← r.toNat?) (← i.toNat?)))
+  | ["status", r, i] => do pure (.inner (.status (← r.toNat?) (← i.toNat?)))
+  | ["done", r, i] => do pure (.inner (.done (← r.toNat?) (← i.toNat?)))
+  | ["gctry", r] => do pure (.inner (.gcTry (← r.toNat?)))
+  | ["gc", r] => do pure (.inner (.gc (← r.toNat?)))
+  | ["gcdone", r] => do pure (.inner (.gcDone (← r.toNat?)))
+  | ["sbegin", s] => do pure (.sbegin (← s.toNat?))
+  | ["tick", s] => do pure (.tick (← s.toNat?))
+  | ["sret", s] => do pure (.sret (← s.toNat?))
+  | ["scancel", s] => do pure (.scancel (← s.toNat?))
   | _ => none
 
 def showCsv (l : List Nat) : String :=
   if l.isEmpty then "-" else ",".intercalate (l.map toString)
 
-def insertSorted (x : Nat) : List Nat → List Nat
-  | [] => [x]
-  | y :: ys => if x ≤ y then x :: y :: ys else y :: insertSorted x ys
-
-def sortNat (l : List Nat) : List Nat := l.foldr insertSorted []
+def showPairs (l : List (Nat × Nat)) : String :=
+  if l.isEmpty then "-" else ",".intercalate (l.map fun p => s!"{p.1}={p.2}")
 
 def okErr (b : Bool) : String := if b then "ok" else "err"
 
@@ -107,17 +162,18 @@ def kindStr : Kind → String
 def render (d : DState) : Out → String
   | .ok => "ok"
   | .bad => "bad"
-  | .begin n => s!"begin {n}"
+  | .begin fs n cs => s!"begin f={showCsv fs} s={n} c={showPairs cs}"
+  | .gcCall k => s!"gc {k}"
   | .lock true true => "acq"
   | .lock true false => "acqdead"
   | .lock false _ => "busy"
   | .getOps uo n ok => s!"getops {if uo == .enr then "e" else "v"} {n} {okErr ok}"
-  | .fetch enr arg res fp =>
+  | .fetch enr arg res fp cl =>
     let r := match res with
       | .ok => "ok"
       | .unchanged => "unch"
       | .err => "err"
-    s!"fetch {if enr then "e" else "f"} {arg} {r} {fp}"
+    s!"fetch {if enr then "e" else "f"} {arg} {r} {fp} c{if cl then 1 else 0}"
   | .parse k ok => s!"parse {kindStr k} {okErr ok}"
   | .store (.vulns n fp vs) ok => s!"store v {n} {fp} {showCsv vs} - {okErr ok}"
   | .store (.delta n fp vs ds) ok => s!"store d {n} {fp} {showCsv vs} {showCsv ds} {okErr ok}"
@@ -126,22 +182,153 @@ def render (d : DState) : Out → String
   | .done _ => "done"
   | .ret errs => s!"ret {showCsv (sortNat (errs.map fun i => (script d i).name))}"
 
+def renderS (d : DState) : SOut → String
+  | .inner o => render d o
+  | .ok => "ok"
+  | .bad => "bad"
+  | .intervalErr => "interval-error"
+  | .ctxErr => "ctx-error"
+
+/-! ### set-up operations -/
+
+/-- The updater names as the Go side spells them. -/
+def nameStr (n : Nat) : String :=
+  if n == 0 then "rhel-all" else if n == 1 then "garbage-collection" else s!"u{n}"
+
+/-- The regular expressions the harness uses: what `re.MatchString(name)` answers. -/
+def patMatch (pat : String) (n : Nat) : Option Bool :=
+  let s := nameStr n
+  if pat == "any" then some true
+  else if pat == "none" then some false
+  else match pat.splitOn ":" with
+    | ["exact", x] => some (s == s!"u{x}")
+    | ["prefix", x] => some (s!"u{x}".isPrefixOf s)
+    | ["suffix", x] => some (s.endsWith x)
+    | _ => none
+
+def usetOf (d : DState) (k : Nat) : USet := (d.usets.lookup k).getD []
+
+def setUset (d : DState) (k : Nat) (s : USet) : DState :=
+  { d with usets := (k, s) :: d.usets.filter fun p => !(p.1 == k) }
+
+def usetOp (d : DState) (ws : List String) : Option (DState × String) :=
+  match ws with
+  | ["uset", k, "add", i] => do
+    let k ← k.toNat?
+    let i ← i.toNat?
+    match USet.add (world d).name (usetOf d k) i with
+    | some s => pure (setUset d k s, "ok")
+    | none => pure (d, "exists")
+  | ["uset", k, "merge", k2] => do
+    let k ← k.toNat?
+    let k2 ← k2.toNat?
+    match USet.merge (usetOf d k) (usetOf d k2) with
+    | .inr s => pure (setUset d k s, "ok")
+    | .inl ns => pure (d, s!"exists {showCsv (sortNat ns)}")
+  | ["uset", k, "filter", pat] => do
+    let k ← k.toNat?
+    if pat == "bad" then pure (d, "err") else
+    let keep := fun n => (patMatch pat n).getD false
+    if (patMatch pat 0).isNone then none else
+    pure (setUset d k (USet.regexFilter keep (usetOf d k)), "ok")
+  | ["uset", k, "list"] => do
+    let k ← k.toNat?
+    pure (d, s!"set {showCsv (sortNat (usetOf d k).updaters)}")
+  | ["register", n, f] => do
+    let n ← n.toNat?
+    let f ← f.toNat?
+    match register d.reg n f with
+    | some r => pure ({ d with reg := r }, "ok")
+    | none => pure (d, "panic")
+  | ["registered"] => pure (d, s!"facs {showCsv (sortNat ((registered d.reg).map (·.1)))}")
+  | _ => none
+
+def int? (s : String) : Option Int :=
+  if s.startsWith "-" then (s.drop 1).toNat?.map fun n => -(n : Int) else s.toNat?.map fun n => (n : Int)
+
+def parsePairs (s : String) : Option (List (String × Nat)) :=
+  if s == "-" then some [] else
+  (s.splitOn ",").mapM fun kv =>
+    match kv.splitOn "=" with
+    | [k, v] => do pure (k, ← v.toNat?)
+    | _ => none
+
+def parseOpt (tok : String) : Option Opt :=
+  match tok.splitOn ":" with
+  | ["b", n] => do pure (.batch (← n.toNat?))
+  | ["i", n] => do pure (.interval (← n.toNat?))
+  | ["en", e] => if e == "*" then some (.enabled none) else do pure (.enabled (some (← csv e)))
+  | ["cf", c] => do
+    let ps ← parsePairs c
+    let cs ← ps.mapM fun (k, v) =>
+      if k.startsWith "u" then do pure (false, ← (k.drop 1).toNat?, v)
+      else if k.startsWith "f" then do pure (true, ← (k.drop 1).toNat?, v)
+      else none
+    pure (.configs cs)
+  | ["oot", us] => do pure (.outOfTree (← csv us))
+  | ["gc", n] => do pure (.gc (← int? n))
+  | ["fs", f] => do
+    let ps ← parsePairs f
+    let fm ← ps.mapM fun (k, v) => do pure ((← k.toNat?), FacV.ext v)
+    -- the Go map literal: a repeated key keeps the last value
+    pure (.factories (fm.foldl (fun m p => FMap.set m p.1 p.2) []))
+  | _ => none
+
+def showFacV : FacV → String
+  | .ext id => s!"e{id}"
+  | .static ms => if ms.isEmpty then "s" else "s" ++ "+".intercalate ((sortNat ms).map toString)
+
+def showFMap (m : FMap) : String :=
+  let ns := sortNat (m.map (·.1))
+  if ns.isEmpty then "-" else
+  ",".intercalate (ns.map fun n => s!"{n}={match m.lookup n with
+    | some v => showFacV v
+    | none => "?"}")
+
+def newMgr (d : DState) (ws : List String) : Option (DState × String) :=
+  match ws with
+  | "newmgr" :: m :: cl :: db :: di :: opts => do
+    let m ← m.toNat?
+    let cl ← bool? cl
+    let db ← db.toNat?
+    let di ← di.toNat?
+    let opts ← opts.mapM parseOpt
+    match newManager (world d) d.reg db di cl opts with
+    | .err calls => pure (d, s!"err c={showPairs (sortPairs calls)}")
+    | .ok mg calls =>
+      pure ({ d with mgrs := (m, mg) :: d.mgrs },
+        s!"ok f={showFMap mg.facs} b={mg.batch} i={mg.interval} r={mg.retention} c={showPairs (sortPairs calls)}")
+  | _ => none
+
 def decl (d : DState) (ws : List String) : Option DState :=
   match ws with
   | ["hist", k, n, fp] => do
     let uo ← if k == "v" then some UoKind.vuln else if k == "e" then some UoKind.enr else none
     let op : Op := ⟨← n.toNat?, uo, ← fp.toNat?⟩
-    pure { d with st := { d.st with ops := op :: d.st.ops } }
-  | ["upd", i, n, k, cfg, getok, fmode, src, parseok, vs, ds, storeok, aware] => do
+    pure { d with st := { d.st with m := { d.st.m with ops := op :: d.st.m.ops } } }
+  | ["upd", i, n, k, cfg, getok, fmode, src, parseok, vs, ds, storeok, aware, cmode] => do
     let sc : Script :=
       { name := ← n.toNat?, kind := ← kind? k, cfg := ← cfg.toNat?, getOk := ← bool? getok,
         fmode := ← fmode.toNat?, src := ← src.toNat?, parseOk := ← bool? parseok,
-        vulns := ← csv vs, deleted := ← csv ds, storeOk := ← bool? storeok, ctxAware := ← bool? aware }
+        vulns := ← csv vs, deleted := ← csv ds, storeOk := ← bool? storeok, ctxAware := ← bool? aware,
+        cmode := ← cmode.toNat? }
     pure { d with scripts := (← i.toNat?, sc) :: d.scripts }
-  | ["fac", f, ok, ms] => do
-    pure { d with facs := (← f.toNat?, ⟨← bool? ok, ← csv ms⟩) :: d.facs }
-  | ["run", r, b, g, fs] => do
-    pure { d with runs := (← r.toNat?, ← b.toNat?, ← bool? g, ← csv fs) :: d.runs }
+  | ["fac", f, ok, ms, fcfg] => do
+    pure { d with facs := (← f.toNat?, ⟨← bool? ok, ← csv ms⟩, ← fcfg.toNat?) :: d.facs }
+  | ["facset", f, k, fcfg] => do
+    pure { d with facs := (← f.toNat?, ⟨true, (usetOf d (← k.toNat?)).updaters⟩, ← fcfg.toNat?) :: d.facs }
+  | ["regdecl", n, f] => do
+    pure { d with reg := (← n.toNat?, ← f.toNat?) :: d.reg }
+  | ["startdecl", s, m] => do
+    let mg ← d.mgrs.lookup (← m.toNat?)
+    pure { d with starts := (← s.toNat?, mg.interval) :: d.starts }
+  | ["run", r, m] => do
+    let mg ← d.mgrs.lookup (← m.toNat?)
+    pure { d with runs := (← r.toNat?, runInfo d mg) :: d.runs }
+  | ["run", r, m, s] => do
+    let mg ← d.mgrs.lookup (← m.toNat?)
+    let r ← r.toNat?
+    pure { d with runs := (r, runInfo d mg) :: d.runs, owner := (r, ← s.toNat?) :: d.owner }
   | _ => none
 
 def stepLine (d : DState) (l : String) : DState × String :=
@@ -149,12 +336,18 @@ def stepLine (d : DState) (l : String) : DState × String :=
   let ws := Driver.words l
   match parseEv ws with
   | some ev =>
-    let (s', o) := step (mkEnv d) d.st ev
-    ({ d with st := s' }, render d o)
+    let (s', o) := sstep (mkSEnv d) d.st ev
+    ({ d with st := s' }, renderS d o)
   | none =>
     match decl d ws with
     | some d' => (d', "ok")
-    | none => (d, "bad-op")
+    | none =>
+      match usetOp d ws with
+      | some x => x
+      | none =>
+        match newMgr d ws with
+        | some x => x
+        | none => (d, "bad-op")
 
 end Driver.C13
 
